@@ -8,5 +8,7 @@ CONSTANTS
   CallbackSubmits = FALSE
   UserShutdown = TRUE
   SpawnUnderLock = TRUE
+  MaxCrash = 0
+  RecheckAfterWait = TRUE
 INVARIANT IdsGrow
 
